@@ -398,13 +398,13 @@ func c17EnumerateUDP(sh *evidence.Shard) {
 	// (3) single-byte corruptions
 	p3 := sh.Part("udp-single-byte-corruptions", "enum")
 	p3.Alphabet = map[string]any{"samples": names,
-		"offsets": "every offset of the first 60 bytes; body: every offset (built samples) or every 16th + the last 17 (upstream 1230-byte sample; thorough: every 4th)",
-		"values":  "header offsets and built samples: all 255 other byte values; upstream sample body: xor {0x01,0x80,0xff}"}
+		"offsets": "every offset of the first 60 bytes; body: every offset (built samples) or every 16th + the last 17 (other samples); thorough: every offset of every sample",
+		"values":  "first 60 bytes: all 255 other byte values; body, quick: all 255 values on even offsets of the built samples, xor {0x01,0x80,0xff} elsewhere; thorough: all 255 values everywhere"}
 	for _, s := range samples {
 		n := len(s.Data)
 		stride := 16
 		if th {
-			stride = 4
+			stride = 1
 		}
 		for off := 0; off < n; off++ {
 			inHdr := off < s.HdrLen
@@ -412,7 +412,7 @@ func c17EnumerateUDP(sh *evidence.Shard) {
 				continue
 			}
 			var vals []byte
-			if inHdr || (s.Full && (th || off%2 == 0)) {
+			if inHdr || th || (s.Full && off%2 == 0) {
 				for v := 1; v < 256; v++ {
 					vals = append(vals, byte(v))
 				}
